@@ -68,7 +68,7 @@ Proof.
   intros al fp H e Hin Hlive Hk.
   destruct (audit_sound al fp H e Hin Hlive) as [Hh|Ha]; [|exact Ha].
   exfalso. unfold is_store, is_write, is_unknown in Hk.
-  destruct (e_c e) as [sc v|v| |r|k s| |m| | | |]; cbn in Hh;
+  destruct (e_c e) as [sc v|v| |r|k s| |m|fk|nk| |]; cbn in Hh;
     try discriminate;
     destruct Hk as [Hk|[Hk|Hk]]; try discriminate.
   - destruct v; discriminate.
@@ -76,6 +76,18 @@ Proof.
   - destruct k, s; discriminate.
   - destruct m; discriminate.
   - destruct m; discriminate.
+Qed.
+
+(* no live read of an ambient input (environment, clock, randomness, object
+   identity / hash values, directory order, command line) and no live read of
+   state pickled by an earlier run, unless allow-listed *)
+Theorem audit_ambient_allowlisted : forall al fp, audit_ok al fp = true ->
+  forall e, In e fp -> e_live e = true -> is_ambient e = true -> Allowed al e.
+Proof.
+  intros al fp H e Hin Hlive Hk.
+  destruct (audit_sound al fp H e Hin Hlive) as [Hh|Ha]; [|exact Ha].
+  exfalso. unfold is_ambient in Hk.
+  destruct (e_c e) as [sc v|v| |r|k s| |m|fk|nk| |]; cbn in Hh; try discriminate.
 Qed.
 
 (* the decision is monotone: a longer allow-list never rejects more, a shorter
@@ -96,7 +108,7 @@ Proof.
   unfold entry_ok in E. rewrite Hlive, Hna in E. cbn [negb orb] in E.
   rewrite orb_false_r in E.
   unfold is_unknown in Hu.
-  destruct (e_c e) as [sc v|v| |r|k s| |m| | | |]; cbn in E; try discriminate.
+  destruct (e_c e) as [sc v|v| |r|k s| |m|fk|nk| |]; cbn in E; try discriminate.
   - destruct v; discriminate.
   - destruct v; discriminate.
   - destruct k, s; discriminate.
